@@ -21,6 +21,7 @@ type SpecEnv struct {
 	// resolve a free program-variable name (falls back to st.names)
 	resolve func(name string, st *State) (Val, bool)
 	depth   int
+	witness map[string]Val // instantiations for existsT variables (proof side only)
 }
 
 func (e *SpecEnv) with(name string, v Val) *SpecEnv {
@@ -385,6 +386,10 @@ func (e *SpecEnv) evalCall(x *ast.CallExpr) Val {
 		return e.quantSort(x, "R_GradContext", func(v string) Val {
 			return Val{K: KRef, T: v, Sort: "R_GradContext", Go: e.run.ptrTypeByName("GradContext")}
 		})
+	case "forallA":
+		return e.quantSort(x, "R_Accuracy", func(v string) Val {
+			return Val{K: KRef, T: v, Sort: "R_Accuracy", Go: e.run.ptrTypeByName("Accuracy")}
+		})
 	case "forallE":
 		return e.quantSort(x, "R_backwardEdge", func(v string) Val {
 			return Val{K: KRef, T: v, Sort: "R_backwardEdge", Go: e.run.ptrTypeByName("backwardEdge")}
@@ -448,6 +453,14 @@ func (e *SpecEnv) evalCall(x *ast.CallExpr) Val {
 		return Val{K: KRef, T: sx(e.run.boxFn(v.Sort, "Data"), v.T), Sort: "Data"}
 	case "forallT":
 		return e.quantSort(x, "T", func(v string) Val { return Val{K: KRef, T: v, Sort: "T"} })
+	case "existsT":
+		if id, ok := x.Args[0].(*ast.Ident); ok && len(x.Args) == 2 {
+			if w, ok := e.witness[id.Name]; ok {
+				return boolV(e.with(id.Name, w).boolOf(x.Args[1]))
+			}
+		}
+		q := e.quantSort(x, "T", func(v string) Val { return Val{K: KRef, T: v, Sort: "T"} })
+		return boolV(strings.Replace(q.T, "(forall ", "(exists ", 1))
 	case "imp":
 		return boolV(implies(e.boolOf(x.Args[0]), e.boolOf(x.Args[1])))
 	case "iff":
